@@ -257,6 +257,7 @@ type Sim struct {
 	lateFrom, lateSeen int // C11 canary-fail-late: faults after call lateFrom are followed by a long pause
 	finalState       string
 	stuck int // Drain: consecutive waits for a sleeping task
+	hung  bool // a reconcile hangs for good (reported as a violation); the run is abandoned
 	faultyDrain bool // Drain draws API faults too (state-injection bodies)
 	QuiesceHook func(round int)
 }
@@ -646,6 +647,8 @@ func (s *Sim) Advance(d time.Duration) {
 // ---------------------------------------------------------------------------------------
 // the driver
 
+var errHung = fmt.Errorf("sim: reconcile hangs")
+
 // Drain grants pending calls (no faults) until no task is in flight.
 func (s *Sim) Drain() {
 	for i := 0; i < 100000; i++ {
@@ -657,6 +660,25 @@ func (s *Sim) Drain() {
 				// a task is neither finished nor parked at the gate: it sleeps (a back-off inside the
 				// reconcile). The fake clock moves on until it comes back.
 				s.stuck++
+				if s.stuck > 900 && s.W.Extra["c17"] == "1" {
+					// C17: the errors of the parallel pod operations must come back in what the sync reports.
+					// A sync that is neither finished nor waiting for the API after 15 simulated minutes (the
+					// longest back-off inside a reconcile is seconds) never reports anything.
+					hung := true
+					var labels []string
+					for _, k := range sortedKeys(s.inflight) {
+						t := s.inflight[k]
+						labels = append(labels, t.Label())
+						if t.Ctrl == CtrlCLI {
+							hung = false
+						}
+					}
+					if hung {
+						s.Violate("C17", "sync-hangs", "", "%s: neither finished nor waiting for an API call after 15 simulated minutes - the sync never reports (goroutines of its parallel pod operations block each other)", strings.Join(labels, ", "))
+						s.hung = true
+						panic(errHung)
+					}
+				}
 				if s.stuck > 900 {
 					panic(fmt.Sprintf("sim: %d tasks in flight but nothing pending after 15 simulated minutes", len(s.inflight)))
 				}
